@@ -159,7 +159,7 @@ def _verify(ex, ctx, fi, contract, res):
         # vacuity: requires must be satisfiable
         s = z3.Solver()
         s.set("timeout", 5000)
-        for p in ps.pc:
+        for p in ps.hyps():
             s.add(p)
         r = s.check()
         if r == z3.unsat:
@@ -201,13 +201,14 @@ def _exit_obligations(ex, ctx, fi, contract, e, deferred, ghost_env, rty, n_exit
     if e.status in ("break", "continue"):
         raise Unsupported("break/continue escaped a loop")
     raised = e.status == "raise"
+    exc_value = e.value if raised else None
     result = e.value if e.status == "return" else VNone()
     declared = set()
     for d in deferred:
         if d.kind in ("raises", "may_raise"):
             declared.add(d.node.args[0].id)
-    if raised and e.value.cls not in declared:
-        ctx.obls.append(Obligation(f"no-unexpected-exception/{e.value.cls}", "safety", e.pc, z3.BoolVal(False), where))
+    if raised and exc_value.cls not in declared:
+        ctx.obls.append(Obligation(f"no-unexpected-exception/{exc_value.cls}", "safety", e.hyps(), z3.BoolVal(False), where))
     # evaluate post-state clauses in a spec frame
     for idx, d in enumerate(deferred):
         env = dict(d.env)
@@ -220,22 +221,9 @@ def _exit_obligations(ex, ctx, fi, contract, e, deferred, ghost_env, rty, n_exit
         label = d.label or str(idx)
         if d.kind == "ensures" and not raised:
             for j, a in enumerate(d.node.args):
-                try:
-                    c = ex.cond(e, a)
-                except NeedSplit as ns:
-                    # split the exit state on the undecided condition
-                    for cnd in (ns.cond, z3.simplify(z3.Not(ns.cond))):
-                        e2 = e.clone()
-                        e2.pc.append(cnd)
-                        e2.frames = [Frame(None, dict(env), None, spec=True)]
-                        e2.frames[0].contract, e2.frames[0].mode = contract, "post"
-                        c2 = _cond_split(ex, e2, a)
-                        for pc2, g2 in c2:
-                            ctx.obls.append(Obligation(f"post/{label}" + (f".{j}" if len(d.node.args) > 1 else ""), "post", pc2, g2, where,
-                                                       {"text": ast.unparse(a)}))
-                    continue
-                ctx.obls.append(Obligation(f"post/{label}" + (f".{j}" if len(d.node.args) > 1 else ""), "post", e.pc, z3.simplify(c), where,
-                                           {"text": ast.unparse(a)}))
+                for pc2, g2 in _cond_split(ex, e, a):
+                    ctx.obls.append(Obligation(f"post/{label}" + (f".{j}" if len(d.node.args) > 1 else ""), "post", pc2, g2, where,
+                                               {"text": ast.unparse(a)}))
         if d.kind == "raises":
             exc = d.node.args[0].id
             when = None
@@ -251,7 +239,7 @@ def _exit_obligations(ex, ctx, fi, contract, e, deferred, ghost_env, rty, n_exit
                     e.heap[r] = h
             try:
                 for pc2, c in _cond_split(ex, e, when):
-                    if raised and e.value.cls == exc:
+                    if raised and exc_value.cls == exc:
                         ctx.obls.append(Obligation(f"raises/{label}/only-when", "post", pc2, c, where, {"text": ast.unparse(when)}))
                     elif not raised:
                         ctx.obls.append(Obligation(f"raises/{label}/must-raise", "post", pc2, z3.simplify(z3.Not(c)), where, {"text": ast.unparse(when)}))
@@ -281,7 +269,7 @@ def _exit_obligations(ex, ctx, fi, contract, e, deferred, ghost_env, rty, n_exit
         else:
             goal = _frame_goal(ex, e, h0, h1, [])
         if goal is not None:
-            ctx.obls.append(Obligation(f"frame/{r}", "frame", e.pc, z3.simplify(goal), where))
+            ctx.obls.append(Obligation(f"frame/{r}", "frame", e.hyps(), z3.simplify(goal), where))
 
 
 def _cond_split(ex, e, node):
@@ -293,7 +281,7 @@ def _cond_split(ex, e, node):
         snap = x.clone()
         try:
             c = ex.cond(x, node)
-            out.append((list(x.pc), z3.simplify(c)))
+            out.append((x.hyps(), z3.simplify(c)))
         except NeedSplit as ns:
             a = snap.clone()
             a.pc.append(ns.cond)
